@@ -504,46 +504,18 @@ def check_prefix(ck, ctor, info):
 def check_index_bounds(ck, tu):
     from engine import intervals
     for fn in [f for f in tu.functions if f.record and f.record.startswith(NS + "RadixStep_") and f.body is not None]:
-        info_n = None
-        recs = [r for r in tu.records if r["qname"] == fn.record]
-        for r in recs:
-            for x in r["fields"]:
-                if x["name"] == "bkt_size" and "[" in x["ty"]:
-                    info_n = int(x["ty"].split("[")[1].split("]")[0])
-        if info_n is None:
-            raise ir.AnalysisBroken("%s: bkt_size array not found" % fn.full)
-        g = cfgm.CFG(fn)
-        iv = intervals.Intervals(fn, g)
-        n_sites = 0
-        bad = {}
-        for z in fn.nodes():
-            if z["k"] != "ArraySubscriptExpr":
+        bad, n_sites = intervals.fixed_array_findings(fn)
+        if not n_sites:
+            raise ir.AnalysisBroken("%s: no fixed-size bucket array subscripts found" % fn.full)
+        seen = set()
+        for z, n, r in bad:
+            key = dtable.describe(z)
+            if key in seen:
                 continue
-            base, idx = kids(z)[0], kids(z)[1]
-            n = None
-            if match.this_field(base) == "bkt_size":
-                n = info_n
-            else:
-                bty = strip_casts(base).get("ty") or ""
-                d = ref_of(base)
-                if d is not None:
-                    for v in fn.nodes():
-                        if v["k"] == "VarDecl" and v.get("did") == d and "[" in (v.get("ty") or "") and (v.get("ty") or "").rstrip().endswith("]"):
-                            n = int(v["ty"].split("[")[-1].split("]")[0])
-            if n is None:
-                continue
-            n_sites += 1
-            r = iv.range_at(idx)
-            if r == "unreachable":
-                continue
-            if r is not None and r[1] != intervals.INF and r[1] >= n:
-                key = "%s[%s]" % (dtable.describe(base), dtable.describe(idx))
-                bad.setdefault(key, (z, r))
-        for key, (z, r) in bad.items():
+            seen.add(key)
             ck.violation("BKT-INDEX-BOUND", fn.qname, "%s:%s" % (fn.name, key),
                          "%s is evaluated with an index in [%s, %s]; the array has %d elements (one-past-the-end read when every remaining "
-                         "bucket is empty; the value then decides whether and where an LCP entry is written)"
-                         % (key, r[0] if r else "?", r[1] if r else "?", n_sites and info_n), fn.nloc(z))
+                         "bucket is empty; the value then decides whether and where an LCP entry is written)" % (key, r[0], r[1], n), fn.nloc(z))
         if not bad:
             ck.ok("BKT-INDEX-BOUND", where(fn), "%d subscripts of fixed-size bucket arrays, all proven < size by interval analysis" % n_sites)
 
